@@ -5,10 +5,16 @@
 
   The instance carries ghost logs of every released signature (what `signRoot` was called on and
   returned), which is what the safety theorems (C01, C02, C05, C14) speak about.
+
+  Besides the signing operations and restarts, `Op` contains the operations of an instance's lifetime
+  that change the store without signing (`importCmd`: the slashing-protection import command between a
+  stop and a start; `importRec`: the raw rules-level import it ends in, on its own) or
+  the configuration (`create`, `setUnlockable`), and wallet lock / unlock (no effect on the state).
 -/
 import Dirk.Model.Rules
 import Dirk.Model.Checker
 import Dirk.Model.Ssz
+import Dirk.Model.Import
 
 namespace Dirk
 
@@ -316,6 +322,29 @@ def multisign (s : Inst) (client ip : String) (items : List (Addr × SignData)) 
         let outs := signGenerics s.cfg.adminIPs ip signFails 0 keyed
         ({ s with signLog := s.signLog ++ outs.filterMap (·.2) }, outs.map (·.1))
 
+/-! ## Configuration changes at run time -/
+
+def walletExists (cfg : Config) (w : String) : Bool :=
+  cfg.wallets.contains w || cfg.accounts.any (·.wallet == w)
+
+/-- account creation through dirk with a single participant (a plain account in a
+    non-distributed wallet); `none` = refused -/
+def createAccount (cfg : Config) (client : String) (path : String) (pubkey : Bytes) : Option Config :=
+  match walletAndAccount path with
+  | none => none
+  | some (w, a) =>
+    if !walletExists cfg w then none
+    else if a.isEmpty then none
+    else if cfg.accounts.any (fun x => x.wallet == w && x.name == a) then none
+    else if !check cfg.access client path opCreate then none
+    else some { cfg with accounts := cfg.accounts ++ [{ wallet := w, name := a, pubkey := pubkey }] }
+
+/-- the account manager's Lock / Unlock of one account as the signer sees it: the `unlockable` flag of
+    the account `wallet/name` (if there is one) becomes `b`; nothing else changes -/
+def setUnlockable (cfg : Config) (wallet name : String) (b : Bool) : Config :=
+  { cfg with accounts := cfg.accounts.map (fun x =>
+      if x.wallet == wallet && x.name == name then { x with unlockable := b } else x) }
+
 /-! ## Operations -/
 
 inductive Op where
@@ -326,6 +355,22 @@ inductive Op where
   | msign (client ip : String) (items : List (Addr × SignData))
   /-- clean shutdown and restart, or kill and restart: volatile state is lost, the store is kept -/
   | restart
+  /-- rules-level `ImportSlashingProtection` for one key on the live instance: every supplied field group
+      (`slot ≠ -1`; `src ≠ -1`) OVERWRITES the stored record of `toBytes48 k` (it is not merged with it) -/
+  | importRec (k : Bytes) (r : Protection)
+  /-- the import COMMAND: the dirk process is stopped, `dirk --import-slashing-protection` with
+      `--genesis-validators-root = gvr` runs on the same storage directory (`importFile`: metadata checks,
+      raise-only merge of the file with the existing records, then the rules-level write), and dirk is
+      started again.  This is the only way the rules-level import is reached in dirk.  A refused import
+      leaves the store as it was. -/
+  | importCmd (gvr : String) (f : IFile)
+  /-- account creation through dirk (`createAccount`); a refused creation changes nothing -/
+  | create (client path : String) (pubkey : Bytes)
+  /-- the account manager's Lock (`b = false`) / Unlock (`b = true`) as the signer sees it -/
+  | setUnlockable (wallet name : String) (b : Bool)
+  /-- wallet manager Lock / Unlock: nothing the signer sees changes -/
+  | lockWallet (client wallet : String)
+  | unlockWallet (client wallet : String)
   deriving Inhabited
 
 inductive Out where
@@ -341,9 +386,71 @@ def step (s : Inst) : Op → Inst × Out
   | .sign c ip a d => let (s', p) := signGeneric s c ip a d; (s', .one p)
   | .msign c ip items => let (s', ps) := multisign s c ip items; (s', .many ps)
   | .restart => (s, .unit)
+  | .importRec k r => ({ s with db := importKey s.db (toBytes48 k) r }, .unit)
+  | .importCmd gvr f =>
+    (match importFile gvr s.db f with
+     | .ok db' => { s with db := db' }
+     | .error => s, .unit)
+  | .create c path pk =>
+    (match createAccount s.cfg c path pk with
+     | some cfg' => { s with cfg := cfg' }
+     | none => s, .unit)
+  | .setUnlockable w n b => ({ s with cfg := setUnlockable s.cfg w n b }, .unit)
+  | .lockWallet _ _ => (s, .unit)
+  | .unlockWallet _ _ => (s, .unit)
 
 def run (s : Inst) : List Op → Inst
   | [] => s
   | op :: ops => run (step s op).1 ops
+
+/-! ## Imports that keep what was released covered
+
+`importKey` overwrites; an import that states LESS than what the instance has already released for the key
+lowers the stored record, and the rules then approve requests that conflict with released signatures.
+The safety theorems about histories therefore speak about histories all of whose imports satisfy
+`ImportCovers` at the moment they are applied (`SafeHist`); every other operation is unrestricted. -/
+
+/-- the record `r` imported for key `k` is not below anything the instance has released for `k`:
+    if the attestation record is overwritten (`r.src ≠ -1`), the new source and target are int64 values at
+    least as high as the source and target of every attestation released for `k`; if the proposal record
+    is overwritten (`r.slot ≠ -1`), the new slot is an int64 value at least as high as every slot released
+    for `k`.  (Nothing is required for keys for which nothing was released.) -/
+def ImportCovers (s : Inst) (k : Bytes) (r : Protection) : Prop :=
+  (r.src ≠ -1 → ∀ e ∈ s.attLog, e.1 = k →
+      InI64 r.src ∧ InI64 r.tgt ∧ (e.2.src : Int) ≤ r.src ∧ (e.2.tgt : Int) ≤ r.tgt) ∧
+  (r.slot ≠ -1 → ∀ e ∈ s.propLog, e.1 = k → InI64 r.slot ∧ (e.2.slot : Int) ≤ r.slot)
+
+instance (s : Inst) (k : Bytes) (r : Protection) : Decidable (ImportCovers s k r) := by
+  unfold ImportCovers; exact inferInstance
+
+/-- the only operations constrained are imports -/
+def Op.safeAt (s : Inst) : Op → Prop
+  | .importRec k r => ImportCovers s (toBytes48 k) r
+  | _ => True
+
+instance (s : Inst) (op : Op) : Decidable (op.safeAt s) := by
+  cases op <;> (unfold Op.safeAt; exact inferInstance)
+
+/-- every import of the history covers what had been released when it is applied -/
+def SafeHist (s : Inst) : List Op → Prop
+  | [] => True
+  | op :: ops => op.safeAt s ∧ SafeHist (step s op).1 ops
+
+instance : (s : Inst) → (ops : List Op) → Decidable (SafeHist s ops)
+  | _, [] => isTrue trivial
+  | s, op :: ops =>
+    have := instDecidableSafeHist (step s op).1 ops
+    by unfold SafeHist; exact inferInstance
+
+/-- the raw rules-level import (which dirk reaches only through the merging import command `importCmd`) -/
+def Op.isRawImport : Op → Bool
+  | .importRec _ _ => true
+  | _ => false
+
+/-- a history of signing requests, restarts, import commands, account creations, account and wallet
+    lock / unlock — everything except the raw overwriting import -/
+def NoRawImport (ops : List Op) : Prop := ∀ op ∈ ops, op.isRawImport = false
+
+instance (ops : List Op) : Decidable (NoRawImport ops) := by unfold NoRawImport; exact inferInstance
 
 end Dirk
